@@ -7,8 +7,6 @@ import FlatModel.Proofs.Columns
 namespace FC
 open Region
 
-/-- Rust `==` for payloads with structural equality -/
-instance (priority := low) eqvOfDecEq {V : Type} [DecidableEq V] : HasEqv V := ⟨fun a b => decide (a = b)⟩
 
 section DenseInstances
 variable {R V I O : Type} [Region R V I] [IdxCont O I] [LawfulRegion R] [LawfulIdxCont O]
